@@ -158,6 +158,10 @@ def install_tracker_monitor(hk: Hooks, M, box, dt: float, dx: float, dy: float, 
             return
         U = np.zeros(n)
         Vv = np.zeros(n)
+        if any(len(spy[k][0]) != n for k in spy):
+            # the scheme returned velocities for a different number of particles: the oracle cannot classify this step
+            bump("unclassifiable_steps")
+            return
         if "adv" in spy:
             U = U + spy["adv"][0]
             Vv = Vv + spy["adv"][1]
@@ -287,6 +291,9 @@ def run_case(case: dict[str, Any], wd: Path) -> dict[str, Any]:
                 break
     nontrivial = sit.get("cancelled_by_land", 0) + sit.get("killed_at_boundary", 0) + sit.get("inactive_held", 0) > 0
     key = str({k: v for k, v in case.items() if k not in ("land",)})
+    if sit.get("unclassifiable_steps") and not V:
+        return C.result(V, sit, cnt, nontrivial=False, key=key, sample=desc,
+                        inconclusive=f"{sit['unclassifiable_steps']} tracker steps could not be classified: the advection scheme returned velocities for a different number of particles than the state holds")
     sample = dict(grid=[case["imax"], case["jmax"]], subgrid=case["subgrid"], land_cells=len(case["land"]), scheme=case["scheme"], diffusion=case["diffusion"],
                   flow=case["flow"], steps=case["nsteps"], observed={k: sit.get(k, 0) for k in ("moved", "cancelled_by_land", "killed_at_boundary", "inactive_held")})
     return C.result(V[:3], sit, cnt, nontrivial=nontrivial, key=key, sample=sample)
